@@ -214,6 +214,19 @@ pub fn check_case(c: &Case, st: &mut Stats) -> PResult {
                 ensure!(pending <= used + slack, "C10: {pending} bytes retained but only {used} bytes accounted for under limit {m} (write #{i}, family {})", c.family);
             }
         }
+        // the one-shot entry point takes the same settings: the limit applies to it as well
+        if c.cuts.is_empty() && c.cfg.encoding == encoding_rs::UTF_8 && !c.cfg.adjust_charset {
+            if let Ok(text) = std::str::from_utf8(&c.input) {
+                let (res, out, _) = run_str(text, &f);
+                st.eval();
+                let kind = match &res { Ok(()) => "ok", Err(e) => e.short() };
+                ensure!(kind == r.kind(), "C10: rewrite_str under limit {m} => {kind}, HtmlRewriter (one write) under the same settings => {} (family {}, prealloc {})", r.kind(), c.family, c.cfg.prealloc);
+                if res.is_ok() {
+                    ensure!(out == r.out, "C10: rewrite_str output under limit {m} differs from HtmlRewriter's");
+                }
+                st.label("rewrite_str_compared");
+            }
+        }
         // determinism: the failing call is a function of (limit, configuration, schedule)
         let r2 = run(&chunks, &f);
         st.eval();
@@ -241,7 +254,7 @@ impl Prop for C10 {
         "fault_enumeration"
     }
     fn rule(&self) -> String {
-        "case = (growth-targeted input family [unterminated tag/attribute/comment/doctype under capturing handlers, long tag name without handlers, deep nesting with attribute/descendant selectors, long captured text, many elements] or soup, handler configuration, preallocation p in {0,1,64,1024} held FIXED across the sweep, schedule); the limit M is swept over every value p..p+96, a dense window around the input length and a geometric continuation beyond the need; oracle per M: result is Ok or MemoryLimitExceeded (never a panic/other error); after every successful call accounted usage (hook) <= M and retained bytes_in-bytes_out <= accounted; Ok => output and events identical to the unlimited run; success under M => success under every larger M; two identical runs agree on the failing call; for the deep-nesting families a run with k open elements may only succeed when M >= c + k*S, where the per-element cost S and fixed cost c are measured on the same configuration by bisecting the minimal limit for 1 and for 9 open elements (open-element bookkeeping is charged linearly, not only for its first growth steps). non-trivial = the sweep contains both a failing and a succeeding limit; evaluations = rewriter runs".into()
+        "case = (growth-targeted input family [unterminated tag/attribute/comment/doctype under capturing handlers, long tag name without handlers, deep nesting with attribute/descendant selectors, long captured text, many elements] or soup, handler configuration, preallocation p in {0,1,64,1024} held FIXED across the sweep, schedule); the limit M is swept over every value p..p+96, a dense window around the input length and a geometric continuation beyond the need; oracle per M: result is Ok or MemoryLimitExceeded (never a panic/other error); after every successful call accounted usage (hook) <= M and retained bytes_in-bytes_out <= accounted; Ok => output and events identical to the unlimited run; success under M => success under every larger M; two identical runs agree on the failing call; for single-write UTF-8 cases `rewrite_str` with the same settings gives the same result kind and output; for the deep-nesting families a run with k open elements may only succeed when M >= c + k*S, where the per-element cost S and fixed cost c are measured on the same configuration by bisecting the minimal limit for 1 and for 9 open elements (open-element bookkeeping is charged linearly, not only for its first growth steps). non-trivial = the sweep contains both a failing and a succeeding limit; evaluations = rewriter runs".into()
     }
     fn assumptions(&self) -> Vec<String> {
         vec!["documented precondition preallocated_parsing_buffer_size <= max_allowed_memory_usage is respected".into(), "accounted usage read through the _verif_hooks accessor".into(), "with a text handler the streaming decoder may hold <= 3 bytes of one split character outside the accounted buffers (constant-size codec state)".into(), "the tree-builder simulator's namespace stack is not accounted by the limiter (not observable, see DESIGN section 7)".into()]
